@@ -681,6 +681,9 @@ func (g *TxGen) make(t tx.TxType) *draft {
 		stake := g.amount(b, kind)
 		if kind == "valid" && coin == 0 {
 			stake = Bip(int64(1000 + R.Intn(200000)))
+			if R.Intn(2) == 0 {
+				stake = Bip(int64(1000 + 100*R.Intn(3))) // ties with other small candidates
+			}
 		}
 		d.data = tx.DeclareCandidacyData{Address: g.user().Addr, PubKey: vk.Pub, Commission: comm, Coin: coin, Stake: stake}
 		g.S.W.ValOwner[vk.Pub] = snd.K
